@@ -23,3 +23,8 @@ import Csproto.Bridge.Templates
 #print axioms Csproto.C06.roundtrip_nested_example
 #print axioms Csproto.Gen.unmarshal_nested
 #print axioms Csproto.Gen.roundtrip_nested
+#print axioms Csproto.C06.map_entry_order_irrelevant
+#print axioms Csproto.C06.map_entry_last_wins
+#print axioms Csproto.C06.map_entry_omitted_is_default
+#print axioms Csproto.C06.map_entry_unknown_skipped
+#print axioms Csproto.C06.map_entries_example
